@@ -14,6 +14,7 @@ From RB Require Import Wire.DecodeSoundLemmas.
 From RB Require Import Wire.DecodeTotal.
 From RB Require Import Wire.DecodeSoundT.
 From RB Require Import Wire.DecodeSound.
+From RB Require Import Wire.Ops Wire.BodyDecode.
 
 (* raw validation succeeds exactly when the bytes at the offset are THE encoding of some well-typed, encodable value
    of the signature, and reports exactly the number of bytes that encoding occupies *)
@@ -173,3 +174,28 @@ Proof.
   split; [intros e; apply accepted_array|intros t; apply accepted_depth].
 Qed.
 Print Assumptions C03_rejects.
+
+(* whole bodies (message_builder.rs: MarshalledMessageBody::validate, MarshalledMessage::unmarshall_all ->
+   wire::unmarshal::unmarshal_body; both demand since fix 5de75d3 that all bytes are used): validate() accepts exactly
+   the bodies unmarshall_all decodes when enough descriptors are attached ... *)
+Theorem C03_body_agree : forall be sigbytes buf, bytes_ok buf ->
+  (op_body_validate be sigbytes buf = true <-> exists vs, body_unmarshall_all be (2 ^ 32) sigbytes buf = Ok vs).
+Proof. exact body_agree. Qed.
+Print Assumptions C03_body_agree.
+
+(* ... with nf descriptors it decodes exactly those whose descriptor indices are below nf, to the same values ... *)
+Theorem C03_body_agree_fds : forall be nf sigbytes buf vs, bytes_ok buf ->
+  (body_unmarshall_all be nf sigbytes buf = Ok vs <->
+   body_unmarshall_all be (2 ^ 32) sigbytes buf = Ok vs /\ forallb (fds_below nf) vs = true).
+Proof. exact body_agree_fds. Qed.
+Print Assumptions C03_body_agree_fds.
+
+(* ... and the values are those of the dynamic decoder on each type of the signature in turn ([dec_seq]), with no byte
+   left; an empty signature goes with an empty body *)
+Theorem C03_body_values : forall be nf sigbytes buf vs, body_unmarshall_all be nf sigbytes buf = Ok vs ->
+  (sigbytes = [] /\ buf = [] /\ vs = [])
+  \/ exists tys c', parse_description sigbytes = Ok tys
+                   /\ dec_seq be tys {| ubuf := buf; uoff := 0; unfds := nf; udepth := 0 |} = Ok (vs, c')
+                   /\ len (ubuf c') - uoff c' = 0.
+Proof. exact body_values. Qed.
+Print Assumptions C03_body_values.
